@@ -19,7 +19,7 @@ RULE = ("seeded single calls of every function/method/operator with a NumPy name
         "(function, spelling, option keys, operand kinds and dtypes).")
 ASSUMPTIONS = ["NumPy 2.x value-based casting rules (NEP 50) on the same operands are the specification",
                "MyGrad raising where NumPy returns is recorded (mg_raises_only), judged by other properties"]
-TIERS = {"quick": {"cases": 12000}, "thorough": {"cases": 1500000}}
+TIERS = {"quick": {"cases": 40000}, "thorough": {"cases": 1500000}}
 FLOORS = {"quick": {"compared": 6000, "compared_untracked": 6000},
           "thorough": {"compared": 30000, "compared_untracked": 30000}}
 
